@@ -376,7 +376,8 @@ def search(mod, args):
                     timeout=budget + 120)
             except Exception as e:
                 sh = {"tape": v["tape"], "evals": 0, "reproduced": True, "error": str(e)}
-            path = os.path.join(VERIF, "replays", f"{prop}-{args.seed}-{n}.json")
+            path = os.path.join(os.environ.get("VERIF_REPLAY_DIR") or os.path.join(VERIF, "replays"),
+                                f"{prop}-{args.seed}-{n}.json")
             write_replay(path, mod, v["cfgname"], cfg, v["seed"], sh["tape"], viol, v["sample"], v["tail"],
                          {"from": len(v["tape"]), "to": len(sh["tape"]), "evals": sh["evals"]})
             # confirm in a fresh process
